@@ -68,6 +68,7 @@ def random_config(rng, kind, **force):
                err=rng.choice([0.0, 0.125, 1.0]), nin=rng.choice([None, None, 0, 1, 2, 50]), str_len=rng.randint(4, 8),
                dim=rng.randint(1, 3), keep_history=True, offset=rng.choice([0.0, 0.0, 0.0, 2.0 ** 50, -(2.0 ** 50)]),
                strategy=rng.choice(["best_1", "rand_1", "current_to_best_1", "rand_to_best1", "best_2", "rand_2"]))
+    cfg["buffer"] = rng.random() < 0.3           # the objective returns the same (overwritten) output array on every call
     if cfg["offset"] != 0.0:
         cfg["err"] = rng.choice([0.0, 1.0])      # keep sign*optimal_value - err exactly representable next to 2^50
     if kind in TREES:
@@ -141,18 +142,26 @@ def observe(opt, obj, cfg):
                 raw=(L.snap(pg), L.snap(pp), L.snap(fi)), stats_copy={k: [L.snap(e) for e in v] for k, v in st.items()})
 
 
+def _report_ident(r):
+    return tuple((k, float(v) if np.isscalar(v) else ident(v)) for k, v in sorted(r.items()))
+
+
 def run_trace(cfg):
     import random as _r
     rng_init = _r.Random(cfg["seed"] ^ 0x5bd1e995)
     kind = cfg["kind"]
     off = cfg.get("offset", 0.0) if abs(cfg["scale"]) <= 2.0 and cfg["objective"] != "view" else 0.0   # keep values exact integers
-    obj = L.Objective(cfg["objective"], scale=cfg["scale"], offset=off)
+    obj = L.Objective(cfg["objective"], scale=cfg["scale"], offset=off, reuse_buffer=bool(cfg.get("buffer")))
     g2p = G2P(kind) if cfg["g2p"] else None
     snaps = []
     holder = {}
 
+    kept = []
+
     def cb(o):
         snaps.append(observe(o, obj, cfg))
+        r = o.get_fittest()                       # a caller keeps every report it was given (history.append(opt.get_fittest()))
+        kept.append((r, _report_ident(r)))
     if kind in TREES and "_uniset" not in cfg:
         cfg["_uniset"] = make_uniset()
     opt, init = build(cfg, obj, g2p, cb, rng_init)
@@ -161,13 +170,14 @@ def run_trace(cfg):
         cfg["_between_build_and_fit"]()          # e.g. draws / other runs between constructing the optimizer and fit()
     opt.fit()
     final = observe(opt, obj, cfg)
+    kept_changed = [i for i, (r, was) in enumerate(kept) if _report_ident(r) != was]
     sign = -1.0 if cfg["minimization"] else 1.0
     batches = []
     for X, v in obj.batches:
         batches.append(dict(ph=[ident(x) for x in X], value=[float(t) for t in v], fit=[sign * float(t) for t in v]))
     return dict(cfg={k: v for k, v in cfg.items() if not k.startswith("_")}, batches=batches, g2p=(g2p.pairs if g2p else None),
                 snaps=snaps, final=final, stats=opt.get_stats(), opt=opt, obj=obj, init=init, init_before=init_before,
-                fittest=opt.get_fittest())
+                fittest=opt.get_fittest(), kept_reports=len(kept), kept_changed=kept_changed)
 
 
 def with_target(cfg):
